@@ -150,15 +150,18 @@ def _greedy_filter(ctx: Ctx) -> None:
         raise AnalysisError(f"{qual}: the loop over the hits / the returned list was not found")
     loop, kept_list = loops[0], rets[0].value.id
     cur = loop.target.id
-    prev_names = {t.id for n in walk_local(loop) if isinstance(n, ast.Assign) and txt(n.value) == f"{kept_list}[-1]"
-                  for t in n.targets if isinstance(t, ast.Name)}
+    # the hit each new one is compared with: the local (other than the loop variable) whose query_end the loop reads
+    prev_names = {n.value.id for n in walk_local(loop) if isinstance(n, ast.Attribute) and n.attr == "query_end"
+                  and isinstance(n.value, ast.Name) and n.value.id != cur}
     margin_names = {t.id for n in walk_local(loop) if isinstance(n, ast.Assign) for t in n.targets if isinstance(t, ast.Name)
                     and any(isinstance(x, ast.Name) and x.id == lengths for x in ast.walk(n.value))}
     prev = sorted(prev_names)[0] if len(prev_names) == 1 else None
     margin = sorted(margin_names)[0] if len(margin_names) == 1 else None
-    ctx.ob("R13.2", REF, loop, qual, "previous is the last kept", prev is not None and
-           [txt(v) for v in bound_from(func, prev)] == [f"{kept_list}[-1]"],
-           "each hit is compared with the last hit kept so far", form=str(sorted(prev_names)))
+    if prev is not None:
+        ok, why = _tracks_last_kept(cfg, func, loop, prev, kept_list)
+        ctx.ob("R13.2", REF, loop, qual, "previous is the last kept", ok,
+               "each hit is compared with the last hit kept so far: the comparison partner is re-read from the kept list in "
+               "every iteration, or refreshed after every change of the list's last element", detail="" if ok else why, form=why)
     if prev is None or margin is None:
         ctx.cannot("R13.2", REF, loop, qual, "greedy filter", "the previous-hit local or the margin local was not found")
         return
@@ -220,6 +223,49 @@ def _ancestors(node: ast.AST):
     while cur is not None:
         yield cur
         cur = getattr(cur, "_parent", None)
+
+
+def _tracks_last_kept(cfg: CFG, func: ast.AST, loop: ast.For, prev: str, kept: str):
+    """ does `prev` equal kept[-1] whenever the loop body reads it? """
+    head = cfg.n(loop)
+    body = cfg.loop_body_nodes(loop)
+    reads = [n for n in walk_local(loop) if isinstance(n, ast.Name) and n.id == prev and isinstance(n.ctx, ast.Load)]
+    rereads = [n for n in walk_local(loop) if isinstance(n, ast.Assign) and txt(n.value) == f"{kept}[-1]"
+               and any(isinstance(t, ast.Name) and t.id == prev for t in n.targets)]
+    # the last element changes by append(...) and by a store into kept[-1]
+    changes = []
+    for node in walk_local(loop):
+        if isinstance(node, ast.Call) and txt(node.func) == f"{kept}.append" and node.args:
+            changes.append((node, txt(node.args[0])))
+        elif isinstance(node, ast.Assign) and any(txt(t) == f"{kept}[-1]" for t in node.targets):
+            changes.append((node, txt(node.value)))
+        elif isinstance(node, ast.Call) and isinstance(node.func, ast.Attribute) and txt(node.func.value) == kept \
+                and node.func.attr in ("pop", "insert", "extend", "remove", "clear", "sort", "reverse"):
+            changes.append((node, "?"))
+    # (a) re-read at the top of every iteration, before any read and before any change
+    if rereads:
+        first = rereads[0]
+        fine = all(cfg.dominates(cfg.n(first), cfg.n(r)) for r in reads) and \
+            not any(cfg.n(first) in cfg.reach([cfg.n(c)], within=body) for c, _ in changes)
+        if fine:
+            return True, f"{prev} = {kept}[-1] at the top of every iteration"
+    # (b) kept in step: equal before the loop, and refreshed after every change before the next iteration
+    inits = [v for v in bound_from(func, prev) if not any(a is loop for a in _ancestors(v))]
+    kept_inits = bound_from(func, kept)
+    initial = len(inits) == 1 and len(kept_inits) == 1 and isinstance(kept_inits[0], ast.List) and len(kept_inits[0].elts) == 1 and \
+        (txt(kept_inits[0].elts[0]) in (prev, txt(inits[0])) or txt(inits[0]) == f"{kept}[-1]")
+    if not initial:
+        return False, f"`{prev}` is not read from {kept}[-1] in every iteration and is not initialised to the list's only element"
+    for node, value in changes:
+        refresh = {cfg.n(a) for a in walk_local(loop) if isinstance(a, ast.Assign)
+                   and any(isinstance(t, ast.Name) and t.id == prev for t in a.targets)
+                   and txt(a.value) in (value, f"{kept}[-1]")}
+        start = cfg.n(node)
+        if start in refresh:
+            continue
+        if head in cfg.reach([start], avoid=refresh, within=body | {head}):
+            return False, f"after `{stmt_key(node)}` the next iteration still compares with the old `{prev}`"
+    return True, f"{prev} starts as {kept}[-1] and is refreshed after each of {len(changes)} changes of the list"
 
 
 def r13_4_5(ctx: Ctx) -> None:
